@@ -661,7 +661,7 @@ class Poisson1D(BayesianProblem):
         
         # Grids for model
         grid_domain = np.linspace(0, endpoint, dim, endpoint=True)
-        grid_range  = np.linspace(1./(dim-1), endpoint, dim-1, endpoint=False)
+        grid_range  = np.linspace(dx, endpoint, dim-1, endpoint=False) # the nodes the source is sampled on
 
         # PDE form: LHS(x)u=rhs(x)
         grid_obs = grid_range
